@@ -29,6 +29,7 @@ def run(ctx, res):
     r2.enrich(S)
     r1.rule_peer_shaped_sinks(S, res)
     r1.rule_peer_scalar(S, res)
+    r1.rule_peer_length_arith(S, res)
     r1.rule_peer_controlled_sinks(S, res)
     r1.rule_peer_controlled_panics(S, res)
     r1.rule_peer_sized_containers(S, res)
